@@ -5,6 +5,7 @@
 package gmtls
 
 import (
+	"crypto/ecdsa"
 	"crypto"
 	"crypto/cipher"
 	"crypto/hmac"
@@ -405,6 +406,15 @@ func matchKeyCert(keyDERBlock *pem.Block, certDERBlock []byte) (crypto.PrivateKe
 		if pub.X.Cmp(priv.X) != 0 || pub.Y.Cmp(priv.Y) != 0 {
 			return nil, errors.New("tls: private key does not match public key")
 		}
+	case *ecdsa.PublicKey:
+		// a parsed SM2 certificate carries its key as *ecdsa.PublicKey over the SM2 curve
+		priv, ok := privateKey.(*sm2.PrivateKey)
+		if !ok || pub.Curve != sm2.P256Sm2() {
+			return nil, errors.New("tls: private key type does not match public key type")
+		}
+		if pub.X.Cmp(priv.X) != 0 || pub.Y.Cmp(priv.Y) != 0 {
+			return nil, errors.New("tls: private key does not match public key")
+		}
 	default:
 		return nil, errors.New("tls: unknown public key algorithm")
 	}
@@ -444,6 +454,15 @@ func GMX509KeyPairs(certPEMBlock, keyPEMBlock, encCertPEMBlock, encKeyPEMBlock [
 
 	certificate.PrivateKey, err = matchKeyCert(keyDERBlock, certificate.Certificate[0])
 	if err != nil {
+		return fail(err)
+	}
+
+	// the encryption key must belong to the encryption certificate as well
+	encKeyDERBlock, err := getKey(encKeyPEMBlock)
+	if err != nil {
+		return fail(err)
+	}
+	if _, err = matchKeyCert(encKeyDERBlock, certificate.Certificate[1]); err != nil {
 		return fail(err)
 	}
 
